@@ -194,6 +194,7 @@ def run_driver(binary, sub, scn_path, trace_path, n_cases, timeout=900, env=None
     parts = []
     start = 0
     crashed = []
+    hangs = 0
     while start < n_cases:
         part = "%s.part%d" % (trace_path, len(parts))
         p = sh([binary, sub, scn_path, part, "--from", str(start)] + list(args), timeout=timeout, env=env)
@@ -229,6 +230,12 @@ def run_driver(binary, sub, scn_path, trace_path, n_cases, timeout=900, env=None
         parts.append(solo)
         crashed.append(last)
         start = last + 1
+        if cls == "hang":
+            hangs += 1
+            if hangs >= 3:
+                # every further hang costs two time limits: three are enough for a verdict
+                log("[driver] three operations did not return; the remaining %d scenarios of this batch are not run" % (n_cases - start))
+                break
     with open(trace_path, "w") as out:
         for p_ in parts:
             if os.path.exists(p_):
@@ -239,6 +246,8 @@ def run_driver(binary, sub, scn_path, trace_path, n_cases, timeout=900, env=None
 
 
 def classify_death(rc, stderr):
+    if "@hang" in stderr:
+        return "hang"
     if "memory allocation of" in stderr and "failed" in stderr:
         return "alloc_error"
     if "null pointer dereference" in stderr:
